@@ -1105,6 +1105,9 @@ class Engine(Executor):
             fm = self.repo.find_method(st.heap[v.oid].cls, "__str__")
             if fm and fm[0].module.name.startswith("ahbicht") and not fm[0].is_enum:
                 pass  # text of objects is never relied upon: opaque
+        if isinstance(v, SV) and v.ty == "int" and fn.name == "str":
+            # str(i) of an int: int() of the text gives i back
+            return [(st, SV(mk_s(self.to_str(st, v)), "str", {"int": (z3.BoolVal(True), Sc.iv(v.t))}))]
         return [(st, SV(mk_s(self.to_str(st, v)), "str"))]
 
     b_repr = b_str
@@ -1124,11 +1127,19 @@ class Engine(Executor):
             return out
         if v.ty == "int":
             return [(st, v)]
+        if v.ty != "str":
+            raise Unsupported("int() of a value that is not known to be a string or an int")
         sterm = Sc.sv(v.t)
-        num = z3.StrToInt(sterm)
+        digits = z3.InRe(sterm, z3.Plus(z3.Range("0", "9")))
         out = []
-        for s, good in self.branch(st, z3.And(Sc.is_s(v.t), num >= 0)):
-            out.append((s, SV(mk_i(num), "int")) if good else self.raise_(s, "ValueError", sv_str("invalid literal")))
+        for s, good in self.branch(st, digits):
+            if good:
+                out.append((s, SV(mk_i(z3.StrToInt(sterm)), "int")))  # a non-empty run of ASCII digits: its decimal value
+            else:
+                # anything else: Python's int() raises ValueError - or accepts it (surrounding whitespace, a sign,
+                # underscores between digits, decimal digits of other scripts) with a value not modelled here
+                out.append(self.raise_(s.fork(), "ValueError", sv_str("invalid literal")))
+                out.append((s, SV(mk_i(self.fresh("int_of_str", z3.IntSort())), "int")))
         return out
 
     def b_all(self, st, args, kwargs, fn):
